@@ -403,7 +403,13 @@ func checkC04(c caseC04, rec *ev.Rec) *ev.Failure {
 	}
 	// structural edits with re-sealed CRC32
 	for _, e := range structuralEdits(b, res) {
-		if f := xzDamage(rec, b, checkID, e.data, e.fault, e.region, true); f != nil {
+		// sanity of the mutator: the strict reference decoder must object too,
+		// otherwise the edit is not an inconsistency and nothing may be demanded
+		if _, rerr := ref.DecodeXZ(e.data); rerr == nil {
+			rec.Incomplete(fmt.Sprintf("structural edit %s in %s yields a stream the reference decoder accepts", e.fault, e.region))
+			return nil
+		}
+		if f := xzDamage(rec, b, checkID, e.data, e.fault, e.region, e.fault != "dict_size_code"); f != nil {
 			return f
 		}
 	}
